@@ -39,6 +39,8 @@ func main() {
 		cmdOutcodec(*seed, *n, *out, *replay, *tier)
 	case "codecs16":
 		cmdCodecs16(*seed, *n, *out, *replay, *tier)
+	case "mercreport":
+		cmdMercReport(*seed, *n, *out, *replay, *tier)
 	case "agg":
 		cmdAgg(*seed, *n, *out, *replay, *kinds, *tier)
 	default:
